@@ -401,3 +401,12 @@ def mc(ctx):
 
 
 RULES.append(mc)
+
+
+@rule("S7", doc="a rule's searcher hands every match to its applier, and the applier applies every one of them (C04.M5): 'saturated' cannot be reached by dropping matches")
+def s7(ctx):
+    from . import c04
+    c04.m5(ctx)
+
+
+RULES.append(s7)
